@@ -51,6 +51,21 @@ let dispatch (fn : string) : jv -> jv = match fn with
   | "kt_unmarshal" -> kt_unmarshal_j
   | "kt_marshal" -> kt_marshal_j
   | "kt_getkey" -> kt_getkey_j
+  | "wrap_marshal" -> wrap_marshal_j
+  | "wrap_unmarshal" -> wrap_unmarshal_j
+  | "mic_marshal" -> mic_marshal_j
+  | "mic_unmarshal" -> mic_unmarshal_j
+  | "wrap_verify" -> wrap_verify_j
+  | "mic_verify" -> mic_verify_j
+  | "nfold" -> nfold_j
+  | "derive_key" -> derive_key_j
+  | "checksum" -> checksum_j
+  | "verify_checksum" -> verify_checksum_j
+  | "decrypt" -> decrypt_j
+  | "crypt_check" -> crypt_check_j
+  | "encrypt_with" -> encrypt_with_j
+  | "string_to_key" -> string_to_key_j
+  | "des3_random_to_key" -> des3_random_to_key_j
   | _ -> failwith ("unknown model function " ^ fn)
 
 let () =
